@@ -47,7 +47,8 @@ RULE = ("one class statement per case, rendered to source and exec'd in a fresh 
         "kw_only, every kind of rejection below every kind of base (generated hook-running / frozen "
         "__setattr__, slots, fields), hash x unsafe_hash x cache_hash x eq x frozen x init x own __eq__/__hash__/__init__ "
         "x auto_detect x exception/frozen base, class on_setattr x field on_setattr x validator x "
-        "frozen x frozen/hooked bases x own __setattr__ x auto_detect x init=False fields, str x repr "
+        "frozen x frozen/hooked bases x own __setattr__ (on_setattr ranges over None, NO_OP, single hooks, "
+        "non-empty lists and the EMPTY collections [], (), setters.pipe() at both levels) x auto_detect x init=False fields, str x repr "
         "x own __repr__, equal __init__ aliases own/inherited/transformer) each crossed with the front "
         "end (attr.s, define, frozen, make_class) and slots; plus seeded random specifications over "
         "the whole option space and the class specifications of the shared generator used by the "
@@ -115,11 +116,15 @@ OS_OBJ = {
     "NO_OP": lambda: setters.NO_OP, "validate": lambda: setters.validate,
     "convert": lambda: setters.convert, "frozen": lambda: setters.frozen, "user": lambda: _h,
     "list": lambda: [setters.convert, _h], "list_cv": lambda: [setters.convert, setters.validate],
+    # EMPTY hook collections: still "hooks were requested" (pipe() of nothing is a function, not NO_OP)
+    "empty_list": lambda: [], "empty_tuple": lambda: (), "empty_pipe": lambda: setters.pipe(),
 }
 OS_HOOKS = {
     "validate": ["HValidate"], "convert": ["HConvert"], "frozen": ["HFrozen"],
     "user": ['(HUser "h")'], "list": ["HConvert", '(HUser "h")'], "list_cv": ["HConvert", "HValidate"],
+    "empty_list": [], "empty_tuple": [], "empty_pipe": [],
 }
+EMPTY_OS = ["empty_list", "empty_tuple", "empty_pipe"]
 
 
 def enc_field_os(tag):
@@ -196,6 +201,8 @@ BASES = {
     "H": "@attr.s\nclass B_H:\n    bh = attr.ib(default=1, on_setattr=setters.validate)\n",
     "Hn": "@attr.s\nclass B_Hn:\n    bn = attr.ib(default=1, on_setattr=setters.NO_OP)\n",
     "Hc": "@attr.s(on_setattr=_h)\nclass B_Hc:\n    bc = attr.ib(default=1)\n",
+    "He": "@attr.s\nclass B_He:\n    be = attr.ib(default=1, on_setattr=[])\n",
+    "Hce": "@attr.s(on_setattr=[])\nclass B_Hce:\n    bc = attr.ib(default=1)\n",
     "Al": "@attr.s\nclass B_Al:\n    _x = attr.ib(default=1)\n",
     "V": "@attr.s\nclass B_V:\n    bv = attr.ib(default=1, validator=_v)\n",
     "Dv": "@attrs.define(slots=False)\nclass B_Dv:\n    bv: int = attrs.field(default=1, validator=_v)\n",
@@ -829,9 +836,9 @@ def fam_hash(tier, rng):
 
 def fam_setattr(tier, rng):
     quick = tier == "quick"
-    cls_os = [None, "NO_OP", "validate", "convert", "user", "list"]
-    fld_os = [None, "NO_OP", "validate", "user"]
-    bases = [(), ("Fz",), ("FzD",), ("FzSub",), ("H",), ("Hn",), ("Hc",), ("V",), ("Ps",)]
+    cls_os = [None, "NO_OP", "validate", "convert", "user", "list"] + EMPTY_OS
+    fld_os = [None, "NO_OP", "validate", "user"] + EMPTY_OS
+    bases = [(), ("Fz",), ("FzD",), ("FzSub",), ("H",), ("Hn",), ("Hc",), ("V",), ("Ps",), ("He",), ("Hce",)]
     shapes = [dict(default="value"), dict(init=False), dict()]
     core_bases = [(), ("Fz",)]
     for api in APIS:
@@ -839,7 +846,7 @@ def fam_setattr(tier, rng):
                 cls_os, fld_os, [False, True], [None, True, False], bases, [False, True],
                 [None, True, False], [None, True, False], range(len(shapes))):
             core = (bs in core_bases and ad_ is None and sl is None and shape == 0 and fr is not False)
-            p = (0.45 if quick else 1.0) if core else (0.004 if quick else 0.08)
+            p = (0.2 if quick else 1.0) if core else (0.0015 if quick else 0.03)
             if rng.random() > p:
                 continue
             kw = {}
@@ -927,6 +934,9 @@ def fam_late(tier, rng):
         ("str_norepr", {"str": True, "repr": False}, [mkfield("y", default="value")]),
         ("dup_alias", {}, [mkfield("_y", default="value"), mkfield("y", default="value")]),
         ("frozen_hook", {"frozen": True}, [mkfield("y", default="value", os="validate")]),
+        ("frozen_empty_field", {"frozen": True}, [mkfield("y", default="value", os="empty_list")]),
+        ("frozen_empty_cls", {"frozen": True, "on_setattr": "empty_tuple"}, [mkfield("y", default="value")]),
+        ("empty_cls_only", {"on_setattr": "empty_pipe"}, [mkfield("y", default="value")]),
         ("annot_type", {}, [mkfield("y", default="value", annot=True, type=True)]),
         ("order", {}, [mkfield("y", default="value"), mkfield("z")]),
         ("unannotated", {"auto_attribs": True}, [mkfield("y", default="value", annot=False)]),
@@ -946,6 +956,26 @@ def fam_late(tier, rng):
                         for f in sp["fields"]:
                             f["annot"] = False
                     yield sp
+
+
+def fam_empty_hooks(tier, rng):
+    """An EMPTY hook collection ([], (), setters.pipe()) is still a request for hooks: the whole small
+    lattice, next to None / NO_OP / a hook, at class and at field level."""
+    situations = [({}, (), ()), ({"frozen": True}, (), ()), ({}, ("Fz",), ()), ({}, ("FzD",), ()),
+                  ({"auto_detect": True}, (), ("setattr",)), ({"auto_detect": False}, (), ("setattr",)),
+                  ({"frozen": True, "auto_detect": True}, (), ("setattr",)), ({}, ("He",), ()), ({"frozen": True}, ("He",), ()),
+                  ({}, ("Hce",), ())]
+    for api in APIS:
+        for tag in EMPTY_OS + [None, "NO_OP", "user"]:
+            for level in ("cls", "field", "both"):
+                for si, (kw0, bs, own) in enumerate(situations):
+                    for sl in ((True, False) if (tier != "quick" or si < 3) else (None,)):
+                        for val in ((False, True) if (tier != "quick" or tag in EMPTY_OS) else (True,)):
+                            kw = dict(kw0) if sl is None else dict(kw0, slots=sl)
+                            if level in ("cls", "both") and tag is not None:
+                                kw["on_setattr"] = tag
+                            f = mkfield("y", default="value", val=val, os=tag if level in ("field", "both") else None)
+                            yield annotate(with_api(api, kw, [f], bases=bs, own=own), api in ("define", "frozen"))
 
 
 def random_spec(rng):
@@ -972,7 +1002,7 @@ def random_spec(rng):
     maybe(0.15, "init", [True, False, False])
     maybe(0.12, "repr", [True, False])
     maybe(0.08, "str", [True])
-    maybe(0.3, "on_setattr", [None, "NO_OP", "validate", "convert", "user", "list", "list_cv"])
+    maybe(0.3, "on_setattr", [None, "NO_OP", "validate", "convert", "user", "list", "list_cv"] + EMPTY_OS)
     maybe(0.12, "field_transformer", ["id", "rev", "rot", "addM", "addD", "kwonly", "dropfirst", "droplast"])
     these = api != "make_class" and rng.random() < 0.12
     aa = None
@@ -985,7 +1015,7 @@ def random_spec(rng):
         bases = ()
     elif r < 0.9:
         bases = (rng.choice(["M", "D", "Dk", "Di", "MD", "Mx", "Dx", "Fz", "Fz0", "FzD", "FzSub", "H", "Hn",
-                             "Hc", "Hc", "Dv", "DvS", "Al", "V", "Sl", "SlD", "P", "Ps", "Exc", "ExcA"]),)
+                             "Hc", "Hc", "He", "Hce", "Dv", "DvS", "Al", "V", "Sl", "SlD", "P", "Ps", "Exc", "ExcA"]),)
     else:
         bases = tuple(rng.sample(["M", "D", "Dk", "H", "P", "V", "Al", "Hn"], 2))
     if api == "make_class" and own and any(k in ("Exc", "ExcA") for k in bases):
@@ -1023,7 +1053,7 @@ def random_spec(rng):
         if not is_def and rng.random() < 0.06:
             f["cmp"] = rng.choice(["T", "F", "K"])
         if rng.random() < 0.25:
-            f["os"] = rng.choice(["NO_OP", "validate", "convert", "user", "list", "frozen"])
+            f["os"] = rng.choice(["NO_OP", "validate", "convert", "user", "list", "frozen"] + EMPTY_OS)
         if rng.random() < 0.12:
             f["alias"] = rng.choice(["x", "al", "y"])
         f["val"] = rng.random() < 0.3
@@ -1102,7 +1132,8 @@ def from_initgen(rng, n):
 
 FAMILIES = [("order", fam_order), ("field", fam_field_rules), ("cls_eq_order", fam_cls_eq_order),
             ("annotations", fam_annotations), ("hash", fam_hash), ("setattr", fam_setattr),
-            ("str", fam_str), ("alias", fam_alias), ("late", fam_late)]
+            ("str", fam_str), ("alias", fam_alias), ("late", fam_late),
+            ("empty_hooks", fam_empty_hooks)]
 
 
 def gen_specs(tier, seed):
